@@ -94,4 +94,126 @@ Section WithClen.
         rewrite app_nil_r in H. apply H. intros ? ? [].
       + rewrite <- Hall. apply partial_of_clean; assumption.
   Qed.
+
+  (* ---------------------------------------------------------------- flush *)
+
+  Lemma can_write_binv old segs cur im st c : BInv old segs cur im st c -> can_write im st = true.
+  Proof.
+    intros [Hw Hw0 _ _ _ _ _ _ _ _ _ _]. unfold can_write. rewrite Hw0, Hw. cbn [alookup N.eqb wf_status].
+    rewrite !Z.eqb_refl. reflexivity.
+  Qed.
+
+  Lemma good_flush old segs cur im st c ord evs st' :
+    BInv old segs cur im st c -> flush clen im st ord = Ok (evs, st') -> Good im c evs st'.
+  Proof.
+    intros Hb Hfl. unfold flush in Hfl. destruct (s_queue st) as [|c0 q] eqn:Eq.
+    - (* empty queue: only the TG id advances *)
+      inversion Hfl; subst. split; [|intros j Hj _; cbn in Hj; assert (j = 0)%nat as -> by lia; cbn; eapply binv_crash; eassumption].
+      exists old, segs, cur. destruct Hb as [Hbw Hw0 Hown Hsegs Hincr [Htp Htg] Hlast [Hq Hqm] Hclean Hmeta Hcst Hnn].
+      constructor; cbn [s_owner s_wal s_tgid s_last s_queue apply_events fold_left cfold]; try assumption.
+      + split; [lia|]. eapply Forall_impl; [|exact Htg]. cbn. intros. lia.
+      + rewrite Eq in Hq, Hqm. split; assumption.
+    - rewrite (can_write_binv _ _ _ _ _ _ Hb) in Hfl. cbv zeta in Hfl.
+      match type of Hfl with Ok (?A, ?B) = _ =>
+        assert (Hevs : evs = A) by congruence; assert (Hst : st' = B) by congruence end.
+      subst evs st'. clear Hfl. set (cs := c0 :: q) in *.
+      set (t := s_tgid st) in *. set (T := (t, cs) : tg).
+      pose proof Hb as [Hbw Hw0 Hown Hsegs Hincr [Htp Htg] Hlast [Hq Hqm] Hclean Hmeta Hcst Hnn].
+      rewrite Eq in Hq, Hqm. fold cs in Hq, Hqm. rewrite Hw0.
+      set (fs := i_files im) in *.
+      set (W := map (EWalApp 0%N) (tg_recs t cs)).
+      assert (HW : wal_events 0%N t cs = W ++ [EWalFsync 0%N]) by reflexivity.
+      set (im1 := apply_events im (wal_events 0%N t cs)).
+      (* the WAL after the appends *)
+      destruct (apply_wal_apps (tg_recs t cs) im _ _ Hbw) as [HwW HfW].
+      assert (Hw1 : i_wals im1 = [(0%N, {| wf_status := Some (WFS_OPEN, WRS_NOTREPLAYED, s_owner st);
+                                          wf_recs := log_of (live_items segs (cur ++ [T])) |})]).
+      { unfold im1. rewrite HW, apply_events_app.
+        change (apply_events (apply_events im W) [EWalFsync 0%N]) with (apply_events im W). unfold W. rewrite HwW.
+        rewrite live_items_snoc, log_of_app. cbn [log_of flat_map item_recs fst snd T]. rewrite app_nil_r. reflexivity. }
+      assert (Hf1 : i_files im1 = fs).
+      { unfold im1. rewrite HW, apply_events_app.
+        change (apply_events (apply_events im W) [EWalFsync 0%N]) with (apply_events im W). exact HfW. }
+      set (order := file_order ord cs). set (gcs := grouped order cs).
+      assert (HP : prim_events clen im1 order cs = fexec clen fs gcs).
+      { rewrite (prim_events_fexec clen clen_pos); [rewrite Hf1; reflexivity|rewrite Hf1; apply Hclean|rewrite Hf1; exact Hq|].
+        intros f Hin. apply file_order_sub in Hin. exact Hin. }
+      rewrite HP. set (P := fexec clen fs gcs).
+      assert (Hokg : all_ok fs gcs) by (apply all_ok_grouped; assumption).
+      destruct (fexec_ok clen clen_pos gcs fs (fc_vinv _ _ Hclean) Hokg) as (HwP & _).
+      assert (Hincr' : incr_from 0 (old ++ live_tgs segs (cur ++ [T]))).
+      { rewrite live_tgs_snoc, app_assoc. apply incr_from_snoc; [assumption|exact Htg|exact Htp]. }
+      assert (Hmeta' : Forall (fun t => meta_ok (snd t)) (live_tgs segs (cur ++ [T]))).
+      { rewrite live_tgs_snoc. apply Forall_app. split; [assumption|constructor; [exact Hqm|constructor]]. }
+      assert (Hcf : cfold c (wal_events 0%N t cs) =
+                    {| cs_pending := None; cs_all := (old ++ live_tgs segs cur) ++ [T]; cs_cur := cur ++ [T] |}).
+      { rewrite Hcst. cbn [wal_events cfold fold_left cstep cs_pending cs_all cs_cur].
+        change (DEST_WAL =? DEST_CHECKPOINT) with false. cbn [andb]. reflexivity. }
+      split.
+      + (* the invariant after the flush *)
+        exists old, segs, (cur ++ [T]).
+        rewrite apply_events_app. fold im1. rewrite cfold_app, Hcf.
+        constructor; cbn [s_owner s_wal s_tgid s_last s_queue].
+        * rewrite i_wals_files_onlys by (apply is_write_files_only, HwP). exact Hw1.
+        * reflexivity.
+        * exact Hown.
+        * exact Hsegs.
+        * exact Hincr'.
+        * split; [lia|]. rewrite live_tgs_snoc, app_assoc. apply Forall_app. split.
+          -- eapply Forall_impl; [|exact Htg]. cbn. intros. lia.
+          -- constructor; [cbn; lia|constructor].
+        * rewrite map_app. cbn [map fst T]. symmetry. apply last_snoc.
+        * split; constructor.
+        * rewrite i_files_apply_events, Hf1, live_tgs_snoc, app_assoc.
+          apply (prim_full_clean clen clen_pos fs _ T ord); assumption.
+        * exact Hmeta'.
+        * rewrite cfold_quiet by (apply is_write_quiet, HwP). rewrite live_tgs_snoc, app_assoc. reflexivity.
+        * rewrite i_files_apply_events, Hf1. apply no_pnew_writes; assumption.
+      + (* every prefix *)
+        intros j Hj Hg. rewrite HW in Hj, Hg |- *. rewrite <- app_assoc in Hj, Hg |- *.
+        destruct (Nat.le_gt_cases j 6) as [Hle|Hgt].
+        * (* inside the WAL appends *)
+          assert (HlW : length W = 6%nat) by reflexivity.
+          rewrite firstn_app_le by lia. unfold W. rewrite firstn_map.
+          destruct (apply_wal_apps (firstn j (tg_recs t cs)) im _ _ Hbw) as [Hwj Hfj].
+          eapply crash_in_wal_part; try eassumption.
+        * (* after the appends: the WAL holds the whole group *)
+          assert (HlW : length W = 6%nat) by reflexivity.
+          rewrite firstn_app_ge by lia. rewrite HlW.
+          destruct (j - 6)%nat as [|j1] eqn:Ej; [lia|].
+          change (firstn (S j1) ([EWalFsync 0%N] ++ P)) with ([EWalFsync 0%N] ++ firstn j1 P).
+          rewrite !apply_events_app, !cfold_app.
+          assert (Him1 : apply_events (apply_events im W) [EWalFsync 0%N] = im1)
+            by (unfold im1; rewrite HW, apply_events_app; reflexivity).
+          rewrite Him1.
+          assert (Hcf1 : cfold (cfold c W) [EWalFsync 0%N] = cfold c (wal_events 0%N t cs))
+            by (rewrite HW, cfold_app; reflexivity).
+          rewrite Hcf1, Hcf.
+          assert (HjP : (j1 <= length P)%nat) by (rewrite !app_length in Hj; cbn in Hj; lia).
+          assert (Hqj : forallb is_write (firstn j1 P) = true).
+          { rewrite forallb_forall in *. intros e He. apply HwP. eapply In_firstn_incl. exact He. }
+          rewrite cfold_quiet by (apply is_write_quiet, Hqj).
+          assert (Hall : (old ++ live_tgs segs cur) = (old ++ concat segs) ++ cur) by (unfold live_tgs; apply app_assoc).
+          rewrite Hall.
+          eapply (crash_partial clen clen_pos owner2 _ _ WFS_OPEN WRS_NOTREPLAYED (s_owner st) (old ++ concat segs) cur T).
+          -- unfold one_wal. rewrite i_wals_files_onlys by (apply is_write_files_only, Hqj). exact Hw1.
+          -- pose proof (live_shape old segs (cur ++ [T]) (s_owner st) [] false Hown Hsegs Hincr' Hmeta' torn_nil) as H.
+             rewrite app_nil_r in H. apply H. intros ? ? [].
+          -- rewrite i_files_apply_events, Hf1, <- Hall.
+             apply (prim_prefix_partial clen clen_pos fs _ T gcs j1); try assumption.
+             ++ intros c1 Hin. eapply grouped_in. exact Hin.
+             ++ (* the guard of the global trace, read at this position *)
+                intros j' e -> Hnth.
+                assert (Hjeq : j = S (6 + S j')) by lia. subst j.
+                cbn [gwin] in Hg.
+                assert (Hn : nth_error (W ++ [EWalFsync 0%N] ++ P) (6 + S j') = Some e).
+                { rewrite nth_error_app2 by lia. rewrite HlW. replace (6 + S j' - 6)%nat with (S j') by lia.
+                  cbn [app nth_error]. exact Hnth. }
+                rewrite Hn in Hg. rewrite ev_guard_files in Hg.
+                rewrite firstn_app_ge in Hg by lia. rewrite HlW in Hg.
+                replace (6 + S j' - 6)%nat with (S j') in Hg by lia. cbn [firstn app] in Hg.
+                rewrite i_files_apply_events, !fapplys_app in Hg.
+                rewrite (fapplys_wal_only W) in Hg by reflexivity.
+                cbn [fapplys fold_left fapply] in Hg. exact Hg.
+  Qed.
 End WithClen.
